@@ -30,8 +30,9 @@ Proof. exact (c20_total r d s). Qed.
 (* a receiver feeding any frame to a context manager gets a buffer or the rule-ID error *)
 Theorem c20_manager_total rules s d : (forall r, In r rules -> rule_total_ok d r) -> zlen s < 8 * 65000 ->
   (exists p, cm_decompress compute_functions rules s d = Ok p) \/
-  cm_decompress compute_functions rules s d = Exc RuleIDMatchError \/ rules = [].
+  cm_decompress compute_functions rules s d = Exc RuleIDMatchError.
 Proof. exact (c20_manager rules s d). Qed.
+(* (the empty rule set included: it raises the rule-ID error since the fix of the unbound loop variable in Ruler.match_schc_packet) *)
 (* the same for the byte-level decompressor with its compute stage, on a canonical SCHC packet Buffer and a canonical rule *)
 Theorem c20_rule_total_bytes s r d : canon s -> canon_rule r ->
   forallb (cda_typed compute_functions) (select_fds d (rule_fds (abs_rule abs r))) = true ->
